@@ -309,6 +309,7 @@ func (res *Response) ReadFrom(r io.Reader) (n int64, err error) {
 		return 0, err
 	}
 
+	src := r
 	if !res.Parser.Engine.DisableSendfile {
 		lr, ok := r.(*io.LimitedReader)
 		if ok {
@@ -343,7 +344,7 @@ func (res *Response) ReadFrom(r io.Reader) (n int64, err error) {
 		}
 	}
 
-	return io.Copy(c, r)
+	return io.Copy(c, src)
 }
 
 // Push implements the http.Pusher interface.
